@@ -41,7 +41,12 @@ META = {
             "all 72 x 72 (client->server cipher/MAC, server->client cipher/MAC) sessions, kex hash cycling over the 4 "
             "(thorough: each with all 4), keyed on un-started Transports of both roles through the real "
             "_activate_outbound/_activate_inbound; the same comparisons per direction, plus one packet per direction "
-            "decoded by the reference receiver and read by the peer.",
+            "decoded by the reference receiver and read by the peer. Dimension 'per-direction cipher sizes': the 72 x 72 "
+            "sessions include every ordered pair of the 9 ciphers, i.e. directions whose ciphers need keys / IVs / blocks of "
+            "different sizes (aes128-ctr vs aes256-ctr, 3des-cbc vs aes256-gcm, ...); each side's activation must install "
+            "the values its own direction's cipher needs - an exception out of _activate_outbound/_activate_inbound for a "
+            "negotiated pair (nothing installed) is reported as key-activation-raises, and findings name whether they "
+            "need the two directions' sizes to differ.",
     "note": "K/H come from the real exchange (their correctness is C06); handshakes run under the default schedule only",
     "design_ref": "4/C04",
 }
@@ -392,18 +397,28 @@ def asym_session(c2s, s2c, hname, acc):
         cipher, mac = own
         kind = R.CIPHERS[cipher][0]
         gcm = kind == "gcm"
+        # do the two directions' ciphers need a key / IV / block of the same size?
+        sizes = "same" if R.CIPHERS[cipher][1:] == R.CIPHERS[other[0]][1:] else "differ"
 
         def bad(clause, dims, detail):
             found.append(clause)
             dims = dict(dims)
-            dims.update({"hash": hname, "negotiation": neg})
+            dims.update({"hash": hname, "negotiation": neg, "cipher-sizes": sizes})
             detail = dict(detail)
             detail.update({"c2s": c2s, "s2c": s2c, "stream": direction})
             detail.update(dims)
             P.sig_violation(acc, clause, dims, detail, replay)
 
         link = P.Link(direction, tclass=SeamTransport)
-        link.tx_switch(own + ("none",), hash_algo=halgo, other=other + ("none",))
+        sender, receiver = ("client", "server") if direction == "c2s" else ("server", "client")
+        # a legally negotiated pair of suites must be activated by both roles: an exception out of _activate_* (the
+        # cipher of one direction refusing a key / IV sized for the other one, ...) means no keys were installed
+        try:
+            link.tx_switch(own + ("none",), hash_algo=halgo, other=other + ("none",))
+        except Exception as e:  # noqa: BLE001
+            bad("key-activation-raises", {"role": sender, "direction": "outbound"},
+                {"error": repr(e)})
+            continue
         msg = P.payload(23, 600)
         link.send(msg)
         wire = link.q.take_chunks()
@@ -411,16 +426,24 @@ def asym_session(c2s, s2c, hname, acc):
             raise AssertionError("seam: %d socket writes for NEWKEYS + 1 message" % len(wire))
         try:
             link.rx_switch(own + ("none",), hash_algo=halgo, other=other + ("none",))
+        except P.NotNewkeys:
+            raise
+        except Exception as e:  # noqa: BLE001 - NEWKEYS was read in the clear: the exception is _activate_inbound's
+            bad("key-activation-raises", {"role": receiver, "direction": "inbound"},
+                {"error": repr(e)})
+        try:
             got = link.read()
             got = bytes([got[0]]) + got[1]
         except Exception as e:  # noqa: BLE001 - wrongly keyed receivers fail in many ways
             got = repr(e)
         ref = R.DirectionKeys(hname, K, H, P.SID0, direction, cipher, mac)
         want = (ref.key, ref.iv, ref.mac_key)
-        sides = (("client" if direction == "c2s" else "server", "out", link.tx),
-                 ("server" if direction == "c2s" else "client", "in", link.rx))
+        sides = ((sender, "out", link.tx), (receiver, "in", link.rx))
         vals = {}
         for role, d, t in sides:
+            if d == "in" and "key-activation-raises" in found and not any(
+                    dd == "in" for (dd, _a, _kw) in t.packetizer.cipher_log):
+                continue                      # nothing was installed (reported above)
             vals[d] = installed_of(t, d)
             for what, g, w in zip(("key", "iv", "mac-key"), vals[d], want):
                 acc.ev()
@@ -429,7 +452,7 @@ def asym_session(c2s, s2c, hname, acc):
                         {"value": what, "role": role, "direction": d + "bound", "exchange": "initial",
                          "cipher-kind": kind, "mac": "-" if gcm else mac},
                         {"got": g, "want": w})
-        for i, what in enumerate(("key", "iv", "mac-key")):
+        for i, what in enumerate(("key", "iv", "mac-key")) if "in" in vals else ():
             acc.ev()
             if vals["out"][i] != vals["in"][i]:
                 bad("peers-disagree-on-installed-value", {"value": what, "stream": direction}, {})
@@ -463,6 +486,8 @@ def do_asym(item, acc):
             acc.count("seam_sessions")
             if c2s != s2c:
                 acc.count("seam_sessions_asymmetric")
+            if R.CIPHERS[c2s[0]][1:] != R.CIPHERS[s2c[0]][1:]:
+                acc.count("seam_sessions_cipher_sizes_differ")
             if not found:
                 acc.nt(("seam", c2s, s2c, hname))
     if c2s == ("aes128-ctr", "hmac-sha2-256"):
@@ -526,7 +551,8 @@ def main(tier):
         "direction) or one wire packet verified under reference keys; nontrivial = distinct (cipher, MAC, kex hash) "
         "handshakes (initial + re-key + re-key with a kex method of another hash) in which every comparison held. part C case = one compared value or packet of a "
         "seam session; nontrivial = distinct (client->server cipher/MAC, server->client cipher/MAC, kex hash) sessions "
-        "in which every comparison held",
+        "in which both roles activated their keys without an exception and every comparison held (4224 of the 5184 "
+        "sessions pair ciphers whose key / IV / block sizes differ between the directions)",
         ["K and H are whatever the real exchange produced (C06 judges them); the reference KDF uses hashlib only",
          "handshakes run under the deterministic default schedule (no schedule exploration is needed for a value "
          "property)", "host key ed25519, password auth, compression none in part B"])
@@ -538,6 +564,7 @@ def main(tier):
                    "exchange": {"initial", "re-key"}, "rekey-kex-hash": {"same", "changed"},
                    "cipher-kind": {"ctr", "cbc", "3des"},
                    "value": {"iv", "key", "mac-key"}, "negotiation": {"symmetric", "asymmetric"},
+                   "cipher-sizes": {"same", "differ"},
                    "mac": set(P.MACS)})
     ck.extra["bound"] = {"kex_classes_part_A": len(kex_cases(tier)), "K_values": len(K_VALUES), "n_max": NMAX,
                          "kex_pairs_part_A2": len(kex_cases(tier)) ** 2, "exchanges_per_handshake": 3,
